@@ -280,12 +280,18 @@ fn fixed() -> Vec<Case> {
         "{% capture c %}{{ long }}{% endcapture %}{{ c | append: long }}{% assign d = long | prepend: 'é' %}{{ d }}{% ifchanged %}{{ long }}{% endifchanged %}",
         "{% for i in longarr %}{% include 'p' k: i %}{% render 'q', k: i %}{% render 'x' with i as k %}{% endfor %}{% render 'x' for longarr as k %}",
     ];
-    t.iter().map(|s| Case { template: s.to_string(), partials: partials.clone(), data: data.clone() }).collect()
+    let mut v: Vec<Case> = t.iter().map(|s| Case { template: s.to_string(), partials: partials.clone(), data: data.clone() }).collect();
+    // outputs beyond any small internal buffer bound: 12 KB in 1200 writes, and 12 KB in one write,
+    // each followed (same thread, same template object) by the runs with failing sinks
+    let big = "é".repeat(6000);
+    v.push(Case { template: "{% for i in (1..1200) %}0123456789{% endfor %}|{{ name }}".into(), partials: partials.clone(), data: data.clone() });
+    v.push(Case { template: "{{ big }}|{{ name }}|{{ big | size }}".into(), partials, data: obj(vec![("name", st("Tobi")), ("big", st(&big))]) });
+    v
 }
 
 pub fn run(ctx: &Ctx) {
     *ctx.level.lock().unwrap() = "fault_enumeration".into();
-    ctx.set_rule("For every template (10 hand-written ones covering text, output, raw, cycle, increment/decrement, tablerow, ifchanged with interrupts, include/render in loops, capture, failing reads; E1: generated templates of every writing construct nested in loops and conditionals with partials) the fault-free run through a counting sink yields W write calls and the byte string S; then EVERY k in 1..W is tried in three modes: error at call k (kinds Other / BrokenPipe / WriteZero), one byte accepted at call k then an error at the next call, Ok(0) at call k; plus two never-failing sinks that accept at most 1 / 3 bytes per call. Checked: render_to returns Err once a write failed, the sink is never called again, accepted bytes == the fault-free prefix up to that call, no panic, streamed bytes == render(), UTF-8. evaluations counts engine executions; non-trivial = W >= 3 and 1 < k < W; distinct by (template, k, mode).");
+    ctx.set_rule("For every template (18 hand-written ones, two of them writing 12 KB, covering text, output, raw, cycle, increment/decrement, tablerow, ifchanged with interrupts, include/render in loops, capture, failing reads; E1: generated templates of every writing construct nested in loops and conditionals with partials) the fault-free run through a counting sink yields W write calls and the byte string S; then EVERY k in 1..W is tried in three modes: error at call k (kinds Other / BrokenPipe / WriteZero), one byte accepted at call k then an error at the next call, Ok(0) at call k; plus two never-failing sinks that accept at most 1 / 3 bytes per call. Checked: render_to returns Err once a write failed, the sink is never called again, accepted bytes == the fault-free prefix up to that call, no panic, streamed bytes == render(), UTF-8. evaluations counts engine executions; non-trivial = W >= 3 and 1 < k < W; distinct by (template, k, mode).");
     ctx.assume("ErrorKind::Interrupted is never injected (write_all legitimately retries it)");
     ctx.cases("fixed_templates", fixed(), oracle);
     ctx.random("generated_templates", ctx.pick(25_000, 250_000), strategy, oracle);
